@@ -12,6 +12,7 @@ import (
 	"fmt"
 	"io"
 	"reflect"
+	"sort"
 	"strconv"
 	"strings"
 
@@ -123,6 +124,8 @@ func genValue(r *sim.R, ctr *int, depth int) string {
 
 // malformed values: legal *inputs* to Set, which must be rejected, not crash.
 var malformed = []string{`"abc`, `'abc`, `[1,2`, `{a: 1`, `[`, `{`, `[a,`, `{a:`, `{a`, `[1,[2`, `{a: [1}`}
+
+var unsettable = []string{"${a", "${}", "x${b", "${a:", "{b.c: 1, b: {c: 2}}", "{a.b: 1, a: 2}", "{a: {b: 1}, a.b: 2}"}
 
 type fileEntry struct {
 	tree   *model.Node
@@ -260,7 +263,12 @@ func checkOptions(r *sim.R, fv *flag.FlagValue, o optSet) {
 
 func genKVArg(r *sim.R, ctr *int) string {
 	t := r.T
-	switch t.Weighted([]int{10, 2, 2, 3, 1}, "arg-kind") {
+	switch t.Weighted([]int{10, 2, 2, 3, 1, 2}, "arg-kind") {
+	case 5:
+		// a value parse.Value accepts, but which cannot become a setting under every set of
+		// options: a malformed reference (VarExp), one setting spelled twice (PathSep)
+		r.Fault("flag value that parses but may not become a setting")
+		return genKey(r) + "=" + unsettable[t.Choose(len(unsettable), "unsettable")]
 	case 1:
 		return genKey(r) // bare key
 	case 2:
@@ -351,8 +359,29 @@ func genFileArg(r *sim.R, table map[string]fileEntry, loaders map[string]flag.Fi
 	name := "f" + strconv.Itoa(*ctr) + ext
 	kind := t.Weighted([]int{6, 2, 1, 1}, "file-kind")
 	var e fileEntry
+	// the same file may be named again later on the command line: it is loaded and merged again
+	var loadable []string
+	for n, fe := range table {
+		if fe.tree != nil {
+			loadable = append(loadable, n)
+		}
+	}
+	sort.Strings(loadable)
+	if len(loadable) > 0 && t.Chance(1, 3, "file-again") {
+		name = loadable[t.Choose(len(loadable), "which-file-again")]
+		ext = ""
+		if i := strings.LastIndexByte(name, '.'); i >= 0 {
+			ext = name[i:]
+		}
+		e = table[name]
+		kind = 0
+		r.Probe("flags: a file named a second time")
+	}
 	switch kind {
 	case 0:
+		if e.tree != nil {
+			break // (named again)
+		}
 		d := model.Dict()
 		k := 1 + t.Choose(2, "file-keys")
 		for i := 0; i < k; i++ {
